@@ -2,15 +2,26 @@
    stays aligned.  Property theorems only; the model is Model/C11CMap.v
    (CrystalMap.__getitem__, the masked accessors, shape/row/col,
    get_map_data, tied to /repo by the correspondence check), proofs are in
-   Proofs/C11Nd.v C11Sel.v C11Acc.v C11Wit.v.
+   Proofs/C11Nd.v C11Sel.v C11Acc.v C11Grid.v C11Wit.v.
 
    Vocabulary: a map is its full-size arrays + the mask `ind`; `acc_id m` are
    the ids in the data; `ref_getitem`/`ref_run` is the reference selection on
    id lists (filter by bounding-box-relative row/col, by mask position, by
    phase); `wf m` = array lengths agree with the original shape and every
-   coordinate axis determines its grid index through round(c/step) with zero
-   offset (holds for any step size and any origin closer than half a step to
-   zero; `wfb` decides it); `rect` = the current selection is a full rectangle. *)
+   coordinate axis determines its grid index through round((c - min c)/step)
+   (proved below for EVERY exact grid, any origin, any positive step; `wfb`
+   decides it).
+
+   The model follows the code after the four C11 repairs (slice path ANDs with
+   the old mask; data slices relative to the map origin; RGB guess only for
+   items with ndim > 1; single-point maps).  The theorems that the model of
+   the unrepaired code refuted (C11_mask_then_slice_refuted,
+   C11_stride_then_slice_refuted, C11_origin_refuted,
+   C11_origin_map_data_refuted, C11_half_step_refuted,
+   C11_map_data_array3_refuted, C11_single_point_refuted) are replaced by the
+   positive theorems at full strength: no rectangle guard, no origin
+   condition, no `oshape <> []`, any item kind.  Their concrete witnesses are
+   kept as `_nonvacuous` regression instances at the end. *)
 From Coq Require Import String Ascii ZArith QArith List Bool.
 From Verif Require Import NdIndex C11CMap C11Nd C11Sel C11Acc C11Grid C11Wit.
 Import ListNotations.
@@ -18,28 +29,37 @@ Close Scope Q_scope.
 Open Scope nat_scope.
 
 (* ---------------------------------------------------------------------
-   Selections follow the reference model, for EVERY history.
-   Full-strength statement would have no `hist_guard`; the faithful model
-   refutes it (C11_mask_then_slice_refuted, C11_origin_refuted below), so this
-   is the statement outside the two findings' strata:
-   guard = every slice/int key is applied to a full-rectangle selection, and
-   (for phase keys) no phase is itself called "indexed"; wf = zero grid offset. *)
-Theorem C11_selection_history_partial :
+   Selections follow the reference model, for EVERY history on EVERY
+   well-formed map: slice/int keys may meet any (also non-rectangular)
+   selection, masks and phase keys any state.  The only condition left in
+   `hist_guard` concerns the KEY, not the map state: for a phase key the phase
+   list must not contain a phase that is itself called "indexed" (then the key
+   is ambiguous between the keyword and the name) and must not be empty. *)
+Theorem C11_selection_history :
   forall (V R : Type) (ops : list key) (m : cmap V R) (ids' : list nat),
   wf m -> hist_guard (static m) (acc_id m) ops ->
   ref_run (static m) (acc_id m) ops = Ok ids' ->
   exists m', run m ops = Ok m' /\ same_arrays m m' /\ wf m' /\ acc_id m' = ids'.
 Proof. intros V R. exact sim_history. Qed.
-Print Assumptions C11_selection_history_partial.
+Print Assumptions C11_selection_history.
 
 (* one step, and what the guard is made of *)
-Theorem C11_selection_step_partial :
+Theorem C11_selection_step :
   forall (V R : Type) (m : cmap V R) (k : key) (ids' : list nat),
   wf m -> guard (static m) (acc_id m) k ->
   ref_getitem (static m) (acc_id m) k = Ok ids' ->
   exists m', getitem m k = Ok m' /\ same_arrays m m' /\ wf m' /\ acc_id m' = ids'.
 Proof. intros V R. exact sim_step. Qed.
-Print Assumptions C11_selection_step_partial.
+Print Assumptions C11_selection_step.
+
+(* slice / int / tuple keys need no guard: any state of a well-formed map *)
+Theorem C11_slice_selection :
+  forall (V R : Type) (m : cmap V R) (ks : list key1) (ids' : list nat),
+  wf m -> ref_getitem (static m) (acc_id m) (KSel ks) = Ok ids' ->
+  exists m', getitem m (KSel ks) = Ok m' /\ same_arrays m m' /\
+             length (ind m') = length (ind m) /\ acc_id m' = ids'.
+Proof. intros V R. exact sim_sel. Qed.
+Print Assumptions C11_slice_selection.
 
 (* boolean masks need no guard at all (any mask of the right length, any state) *)
 Theorem C11_mask_selection :
@@ -57,9 +77,8 @@ Proof. exact phase_mask_pointwise. Qed.
 Print Assumptions C11_phase_mask_pointwise.
 
 (* EXACT behaviour of the slice path with NO rectangle assumption: the new
-   map holds every point of the old bounding box whose relative (row, col) is
-   hit by the key -- whether or not that point was in the old map.  This is
-   the theorem that exposes the mask-then-slice defect. *)
+   map holds the points OF THE MAP BEING INDEXED whose bounding-box relative
+   (row, col) is hit by the key -- the key intersected with the old mask. *)
 Theorem C11_slice_path_exact :
   forall (V R : Type) (m : cmap V R) ks Is,
   wf m -> acc_id m <> [] -> ks <> [] ->
@@ -68,18 +87,23 @@ Theorem C11_slice_path_exact :
   mapM2 key_idx (ks ++ repeat kfull (length (wshape_of bb) - length ks)) (wshape_of bb) = Ok Is ->
   exists m', getitem m (KSel ks) = Ok m' /\ same_arrays m m' /\
     length (ind m') = length (ind m) /\
-    acc_id m' = filter (fun p => in_win (unravel (oshape m) p) bb &&
-                                 forallb2 memb (rel_idx (unravel (oshape m) p) bb) Is)
-                       (seq 0 (size (oshape m))).
+    acc_id m' = filter (fun p => forallb2 memb (rel_idx (unravel (oshape m) p) bb) Is) (acc_id m).
 Proof. intros V R. exact getitem_sel_exact. Qed.
 Print Assumptions C11_slice_path_exact.
 
-(* never a point absent from the map being indexed (reference side; with
-   C11_selection_history_partial it transfers to the model under the guards) *)
+(* never a point absent from the map being indexed: on the reference side ... *)
 Theorem C11_never_absent :
   forall g ops ids ids', ref_run g ids ops = Ok ids' -> incl ids' ids.
 Proof. intros g ops. exact (ref_run_incl g ops). Qed.
 Print Assumptions C11_never_absent.
+
+(* ... and on the MODEL side with no hypothesis at all: any map (a regular
+   grid or not), any key, any history *)
+Theorem C11_never_absent_model :
+  forall (V R : Type) (ops : list key) (m m' : cmap V R),
+  run m ops = Ok m' -> incl (acc_id m') (acc_id m).
+Proof. intros V R ops. exact (run_incl ops). Qed.
+Print Assumptions C11_never_absent_model.
 
 (* ---------------------------------------------------------------------
    Per-point data stays aligned: every accessor returns, at position k, the
@@ -121,13 +145,12 @@ Proof. intros V R. exact prop_resync. Qed.
 Print Assumptions C11_prop_resync.
 
 (* ---------------------------------------------------------------------
-   shape = bounding box of the selected points (needs the zero grid offset:
-   C11_origin_map_data_refuted) *)
-Theorem C11_shape_bbox_partial :
+   shape = bounding box of the selected points (any grid origin) *)
+Theorem C11_shape_bbox :
   forall (V R : Type) (m : cmap V R),
   wf m -> acc_id m <> [] -> acc_shape m = Ok (wshape_of (bbox (oshape m) (acc_id m))).
 Proof. intros V R. exact acc_shape_bbox. Qed.
-Print Assumptions C11_shape_bbox_partial.
+Print Assumptions C11_shape_bbox.
 
 (* row / col = grid index minus the bounding-box corner (any origin, any state) *)
 Theorem C11_row_col_2d :
@@ -150,15 +173,25 @@ Theorem C11_row_col_1d :
 Proof. intros V R. exact acc_rowcol_1d. Qed.
 Print Assumptions C11_row_col_1d.
 
+(* a single-point map (0-dimensional, shape ()): the point sits at row 0, col 0 *)
+Theorem C11_row_col_0d :
+  forall (V R : Type) (m : cmap V R),
+  oshape m = [] -> length (ind m) = 1 -> acc_id m <> [] ->
+  acc_id m = [0] /\ acc_row m = Ok [0] /\ acc_col m = Ok [0].
+Proof. intros V R. exact acc_rowcol_0d. Qed.
+Print Assumptions C11_row_col_0d.
+
 (* get_map_data: output shape = bounding box; the k-th value sits at the
    ravelled bounding-box-relative index of the k-th point; every other cell is
-   the fill value (None) *)
-Theorem C11_map_data_placement_partial :
-  forall (V R : Type) (m : cmap V R) (vals : list V) (d : V),
-  wf m -> acc_id m <> [] -> oshape m <> [] -> length vals = length (acc_id m) ->
+   the fill value (None).  For an attribute name and for a 1-D array item
+   (is_array) alike, for every number of selected points (also 3), for every
+   original shape (also () of a single-point map), for every grid origin. *)
+Theorem C11_map_data_placement :
+  forall (V R : Type) (m : cmap V R) (is_array : bool) (vals : list V) (d : V),
+  wf m -> acc_id m <> [] -> length vals = length (acc_id m) ->
   let ws := wshape_of (bbox (oshape m) (acc_id m)) in
   exists out,
-    get_map_data m false vals = Ok (ws, out) /\
+    get_map_data m is_array vals = Ok (ws, out) /\
     length out = size ws /\
     (forall k, k < length (acc_id m) ->
        out_pos m (nth k (acc_id m) 0) < size ws /\
@@ -166,22 +199,21 @@ Theorem C11_map_data_placement_partial :
     (forall q, q < size ws -> (forall p, In p (acc_id m) -> out_pos m p <> q) ->
        nth q out None = None).
 Proof. intros V R. exact get_map_data_placement. Qed.
-Print Assumptions C11_map_data_placement_partial.
+Print Assumptions C11_map_data_placement.
 
 (* ---------------------------------------------------------------------
    "any grid origin and step size": the coordinate hypothesis of `wf`
    (axis_ok) holds for EVERY exact grid axis c[p] = o + index(p)*st with st > 0
-   and the origin strictly closer than half a step to zero; and the step /
-   presence the model derives from such an array are st / "present".
-   (Origins half a step or more away: C11_origin_refuted, C11_half_step_refuted.) *)
-Theorem C11_any_origin_and_step_partial :
+   and ANY origin o; and the step / presence the model derives from such an
+   array are st / "present". *)
+Theorem C11_any_origin_and_step :
   forall (s : list nat) (d : nat) (o st st' : Q) (c : list Q),
-  (0 < st)%Q -> (- (1 # 2) < o / st)%Q -> (o / st < 1 # 2)%Q -> (st' == st)%Q ->
+  (0 < st)%Q -> (st' == st)%Q ->
   length c = size s ->
   (forall p, p < size s -> (nth p c 0 == o + inject_Z (Z.of_nat (ix s d p)) * st)%Q) ->
   axis_ok s d (c, st').
 Proof. exact exact_grid_axis_ok. Qed.
-Print Assumptions C11_any_origin_and_step_partial.
+Print Assumptions C11_any_origin_and_step.
 
 Theorem C11_grid_step_size :
   forall (n : nat) (f : nat -> nat) (o st : Q), (0 < st)%Q ->
@@ -191,14 +223,12 @@ Proof. exact gc_step. Qed.
 Print Assumptions C11_grid_step_size.
 
 (* constructor + well-formedness for EVERY 2-D exact grid (>= 2 rows and
-   columns), any positive step sizes, any origin within half a step: `init`
-   succeeds, the original shape is (nr, nc) and the map satisfies `wf`, so all
-   _partial theorems above apply to it and (wf is preserved) to everything
-   selected from it. *)
+   columns), any positive step sizes, ANY origin: `init` succeeds, the
+   original shape is (nr, nc) and the map satisfies `wf`, so all theorems above
+   apply to it and (wf is preserved) to everything selected from it. *)
 Theorem C11_exact_grid_wellformed :
   forall (V R : Type) (nr nc : nat) (ox oy dx dy : Q),
   2 <= nr -> 2 <= nc -> (0 < dx)%Q -> (0 < dy)%Q ->
-  (- (1 # 2) < ox / dx)%Q -> (ox / dx < 1 # 2)%Q -> (- (1 # 2) < oy / dy)%Q -> (oy / dy < 1 # 2)%Q ->
   forall pid0 (rots0 : list R) (props0 : list (string * list V)) phases0 ind0,
   length ind0 = nr * nc -> length pid0 = nr * nc ->
   exists m : cmap V R,
@@ -216,71 +246,6 @@ Theorem C11_guards_decidable :
 Proof. intros V R m ops H1 H2. split; [apply wfb_wf | apply hist_guardb_guard]; assumption. Qed.
 Print Assumptions C11_guards_decidable.
 
-(* ---------------------------------------------------------------------
-   REFUTED clauses: the faithful model violates the property; each witness is
-   replayed on the implementation by the oracle (known findings). *)
-
-(* boolean mask (or strided slice) then slice: a point absent from the map
-   being indexed is re-included, although origin = 0 and the map is wf *)
-Theorem C11_mask_then_slice_refuted :
-  exists (m m1 m2 : cmap Z Z) (b : list bool) (k : key) (p : nat),
-    wfb m = true /\ getitem m (KMask b) = Ok m1 /\ getitem m1 k = Ok m2 /\
-    In p (acc_id m2) /\ ~ In p (acc_id m1) /\
-    ref_run (static m) (acc_id m) [KMask b; k] = Ok (acc_id m1).
-Proof. exact wit_mask_then_slice_ex. Qed.
-Print Assumptions C11_mask_then_slice_refuted.
-
-Theorem C11_stride_then_slice_refuted :
-  ids_res (run m34 [KSel [KSlice None None (Some 2%Z)]; KSel [kfull]]) = Ok (seq 0 12) /\
-  ref_run (static m34) (acc_id m34) [KSel [KSlice None None (Some 2%Z)]; KSel [kfull]]
-    = Ok [0; 1; 2; 3; 8; 9; 10; 11].
-Proof. exact (proj2 wit_stride_then_slice). Qed.
-Print Assumptions C11_stride_then_slice_refuted.
-
-(* non-zero grid origin: slicing raises / silently adds a foreign point /
-   get_map_data is cropped *)
-Theorem C11_origin_refuted :
-  (ids_res (getitem m34_off (KSel [sl 0 2; sl 0 2])) = Err ValueError /\
-   ref_getitem (static m34_off) (acc_id m34_off) (KSel [sl 0 2; sl 0 2]) = Ok [0; 1; 4; 5]) /\
-  (ids_res (run m10_off [KMask mask_only0]) = Ok [0] /\
-   ids_res (run m10_off [KMask mask_only0; KSel [kfull]]) = Ok [0; 3]).
-Proof.
-  split; [exact (proj2 (proj2 wit_origin_raises)) |].
-  split; [exact (proj1 wit_origin_silent) | exact (proj1 (proj2 wit_origin_silent))].
-Qed.
-Print Assumptions C11_origin_refuted.
-
-Theorem C11_origin_map_data_refuted :
-  acc_shape m10_off = Ok [10] /\
-  get_map_data m10_off false (map (fun p => (3 * Z.of_nat p)%Z) (seq 0 10))
-  = Ok ([7], map (fun p => Some (3 * Z.of_nat p)%Z) (seq 3 7)).
-Proof. exact wit_origin_map_data. Qed.
-Print Assumptions C11_origin_map_data_refuted.
-
-(* origin exactly half a step: the extent of a one-point selection is empty *)
-Theorem C11_half_step_refuted :
-  ids_res (getitem m10_half (KSel [sl 1 2])) = Ok [1] /\
-  (m <- getitem m10_half (KSel [sl 1 2]) ;; acc_shape m) = Ok [0].
-Proof. split; [exact (proj1 wit_half_step) | exact (proj1 (proj2 wit_half_step))]. Qed.
-Print Assumptions C11_half_step_refuted.
-
-(* get_map_data(array item) with exactly 3 selected points: values are not
-   placed at their (row, col); the output gets a trailing axis of length 3 *)
-Theorem C11_map_data_array3_refuted :
-  (m <- getitem m34 (KMask mask_156) ;; get_map_data m true [10; 20; 30]%Z)
-  = Ok ([2; 2; 3], [Some 10; Some 20; Some 30; None; None; None;
-                    Some 10; Some 20; Some 30; Some 10; Some 20; Some 30]%Z).
-Proof. exact (proj1 wit_rgb_misread). Qed.
-Print Assumptions C11_map_data_array3_refuted.
-
-(* a single-point map (shape ()) can be neither sliced nor gridded *)
-Theorem C11_single_point_refuted :
-  oshape m1 = [] /\ acc_id m1 = [0] /\
-  ids_res (getitem m1 (KSel [KInt 0])) = Err IndexError /\
-  get_map_data m1 false [0%Z] = Err TypeError /\ acc_row m1 = Err ValueError.
-Proof. exact wit_single_point. Qed.
-Print Assumptions C11_single_point_refuted.
-
 (* ------------------------------------------------------- non-vacuity *)
 Example C11_history_nonvacuous :
   wfb m34 = true /\ oshape m34 = [3; 4] /\
@@ -293,3 +258,78 @@ Qed.
 
 Example C11_1d_nonvacuous : wfb m10 = true /\ oshape m10 = [10].
 Proof. exact m10_wf. Qed.
+
+(* maps with grid origin 2 steps / 3 steps / exactly half a step from zero
+   satisfy wf; a history whose slice keys meet non-rectangular selections *)
+Example C11_any_origin_nonvacuous :
+  (wfb m34_off = true /\ oshape m34_off = [3; 4]) /\
+  (wfb m10_off = true /\ oshape m10_off = [10]) /\
+  (wfb m10_half = true /\ oshape m10_half = [10]).
+Proof. exact off_wf. Qed.
+
+Example C11_nonrect_history_nonvacuous :
+  hist_guardb (static m34_off) (acc_id m34_off) hist_nonrect = true /\
+  ref_run (static m34_off) (acc_id m34_off) hist_nonrect = Ok [1; 2; 10; 11] /\
+  ids_res (run m34_off hist_nonrect) = Ok [1; 2; 10; 11].
+Proof. exact hist_nonrect_guard. Qed.
+
+(* ---------------------------------------------------------------------
+   Regression instances: the concrete inputs on which the model of the
+   unrepaired code refuted the property now satisfy it (vm_compute; the same
+   inputs are replayed on the implementation by the oracle on every run). *)
+
+(* boolean mask then slice: the masked-out point 5 stays out *)
+Example C11_mask_then_slice_nonvacuous :
+  ids_res (run m34 [KMask mask_not5; KSel [kfull; kfull]]) = Ok [0; 1; 2; 3; 4; 6; 7; 8; 9; 10; 11] /\
+  ref_run (static m34) (acc_id m34) [KMask mask_not5; KSel [kfull; kfull]]
+    = Ok [0; 1; 2; 3; 4; 6; 7; 8; 9; 10; 11].
+Proof. exact (proj2 wit_mask_then_slice). Qed.
+
+Example C11_stride_then_slice_nonvacuous :
+  ids_res (run m34 [KSel [KSlice None None (Some 2%Z)]; KSel [kfull]]) = Ok [0; 1; 2; 3; 8; 9; 10; 11] /\
+  ref_run (static m34) (acc_id m34) [KSel [KSlice None None (Some 2%Z)]; KSel [kfull]]
+    = Ok [0; 1; 2; 3; 8; 9; 10; 11].
+Proof. exact (proj2 wit_stride_then_slice). Qed.
+
+(* non-zero grid origin: slicing selects the reference ids, nothing is added,
+   get_map_data shows the whole map *)
+Example C11_origin_nonvacuous :
+  (ids_res (getitem m34_off (KSel [sl 0 2; sl 0 2])) = Ok [0; 1; 4; 5] /\
+   ref_getitem (static m34_off) (acc_id m34_off) (KSel [sl 0 2; sl 0 2]) = Ok [0; 1; 4; 5]) /\
+  (ids_res (run m10_off [KMask mask_only0]) = Ok [0] /\
+   ids_res (run m10_off [KMask mask_only0; KSel [kfull]]) = Ok [0]) /\
+  (acc_shape m10_off = Ok [10] /\
+   get_map_data m10_off false (map (fun p => (3 * Z.of_nat p)%Z) (seq 0 10))
+   = Ok ([10], map (fun p => Some (3 * Z.of_nat p)%Z) (seq 0 10))).
+Proof.
+  split; [exact (proj2 (proj2 wit_origin_slice)) |].
+  split; [split; [exact (proj1 wit_origin_keep) | exact (proj1 (proj2 wit_origin_keep))] |].
+  exact wit_origin_map_data.
+Qed.
+
+(* origin exactly half a step: the one-point selection has shape (1,) *)
+Example C11_half_step_nonvacuous :
+  ids_res (getitem m10_half (KSel [sl 1 2])) = Ok [1] /\
+  (m <- getitem m10_half (KSel [sl 1 2]) ;; acc_shape m) = Ok [1] /\
+  ids_res (run m10_half [KSel [sl 1 3]; KSel [kfull]]) = Ok [1; 2].
+Proof. exact wit_half_step. Qed.
+
+(* get_map_data(1-D array item) with exactly 3 selected points *)
+Example C11_map_data_array3_nonvacuous :
+  (m <- getitem m34 (KMask mask_156) ;; get_map_data m true [10; 20; 30]%Z)
+  = Ok ([2; 2], [Some 10; None; Some 20; Some 30]%Z).
+Proof. exact (proj1 wit_array3). Qed.
+
+(* a single-point map: shape (), row = col = [0], 0-d map data; an int key is
+   rejected by model and reference alike (no axis to index), masks work *)
+Example C11_single_point_nonvacuous :
+  oshape m1 = [] /\ acc_id m1 = [0] /\ wfb m1 = true /\
+  acc_shape m1 = Ok [] /\
+  get_map_data m1 false [7%Z] = Ok ([], [Some 7%Z]) /\
+  acc_row m1 = Ok [0] /\ acc_col m1 = Ok [0] /\
+  ids_res (getitem m1 (KSel [KInt 0])) = Err IndexError /\
+  ref_getitem (static m1) (acc_id m1) (KSel [KInt 0]) = Err IndexError /\
+  ids_res (getitem m1 (KMask [true])) = Ok [0] /\
+  ids_res (getitem m1 (KPhase ["indexed"%string])) = Ok [] /\
+  ref_getitem (static m1) (acc_id m1) (KPhase ["indexed"%string]) = Ok [].
+Proof. exact wit_single_point. Qed.
